@@ -171,7 +171,7 @@ MkFop == On("fop") /\ Building /\
                Join(3, [e |-> "fop", kind |-> "reduce", fn |-> TopT(3).x, acc |-> << TopT(2).x >>, tgt |-> TopT(1).x])
 
 (* ---- functions: a context whose scope adds the parameters ------------------ *)
-OpenFunc == On("func") /\ Building /\ Len(ctx) < MaxCtx /\ Len(Stk) < MaxStk /\
+OpenFunc == On("func") /\ Building /\ Len(ctx) < MaxCtx /\ Stk = << >> /\   \* a function is a first operand (or alone)
             \E sg \in 1..Len(SigPool) :
                /\ ctx' = Append(ctx, Ctx("func", Cur.scope \o SigPool[sg], Cur.scope,
                                          [q \in 1..Len(SigPool[sg]) |-> SigPool[sg][q].nm], 0))
@@ -192,7 +192,7 @@ OpenMod == On("module") /\ Building /\ Len(ctx) < MaxCtx /\
               LET c == Cur
                   ps == [q \in 1..k |-> [nm |-> FldNames[off + q], ex |-> c.stk[Len(c.stk) - k + q].x]]
                   dv == [q \in 1..k |-> Fld(FldNames[off + q], c.stk[Len(c.stk) - k + q].v)]
-              IN /\ Len(c.stk) >= k /\ \A q \in 1..k : ~Bad(dv[q].val)
+              IN /\ Len(c.stk) = k /\ \A q \in 1..k : ~Bad(dv[q].val)    \* the stack holds exactly the defaults
                  /\ ctx' = Append([ctx EXCEPT ![Len(ctx)].stk = SubSeq(@, 1, Len(@) - k)],
                                   [Ctx("mod", << Fld(N_mod, TupleV(dv)) >>, << >>, ps, 0)
                                      EXCEPT !.used = SumOf([q \in 1..k |-> c.stk[Len(c.stk) - k + q].n])])
@@ -213,7 +213,7 @@ CloseMod == On("module") /\ Building /\ Cur.kind = "mod" /\ Len(Stk) <= 1 /\ Len
 StmtCtx == Cur.kind \in {"top", "mod"}
 NStmts == IF Cur.kind = "top" THEN NGen ELSE Len(Cur.stmts) + (MaxStmts - MaxModStmts)
 
-MkLet == On("let") /\ Building /\ StmtCtx /\ Len(Stk) = 1 /\ NStmts < MaxStmts /\
+MkLet == (IF Cur.kind = "mod" THEN On("module") ELSE On("let")) /\ Building /\ StmtCtx /\ Len(Stk) = 1 /\ NStmts < MaxStmts /\
          LET c == Cur
              t == c.stk[1]
              pool == IF c.kind = "top" THEN Names ELSE ModNames
